@@ -103,6 +103,17 @@ def fold_instances(ctx, terms, rounds=2):
                         continue
                     done.add(key)
                     new += _split_fact(ctx, fi, lo, m, hi)
+        if rnd == 0:
+            # FIRST_h / LAST_h are built from the same condition h: an index satisfying it exists for both or neither
+            for name, alist in apps.items():
+                if not name.startswith("FIRST_"):
+                    continue
+                twin = "LAST_" + name[len("FIRST_"):]
+                if twin in ctx.folds and ctx.folds[twin].kind == "last" and ctx.folds[name].kind == "first" and \
+                        z3.eq(z3.substitute(ctx.folds[twin].piece, (ctx.folds[twin].K0, ctx.folds[name].K0)), ctx.folds[name].piece):
+                    for a in alist:
+                        lo, hi = a.arg(0), a.arg(1)
+                        new.append(z3.Implies(lo <= hi, (ctx.folds[twin].fn(lo, hi) >= lo) == (a < hi)))
         if not new:
             break
         facts += new
